@@ -106,6 +106,15 @@ def prefix_end(t):
         return t[1][2][1]
     return None
 
+def vec_content(v):
+    """the content of a vector term as a list of pieces, in order (absx: ('vec', elements) known elements; ('vecpush', v, x) v then
+    the element x; ('concat', v, list) v then the elements of the list); any other term is one piece"""
+    if v[0] == 'vec':
+        return list(v[1])
+    if v[0] in ('vecpush', 'concat') and len(v) == 3:
+        return vec_content(v[1]) + [v[2]]
+    return [v]
+
 VEC_WRITES = ('push', 'extend', 'extend_from_slice', 'append', 'insert', 'resize', 'extend_from_within', 'push_str')
 SEARCHES = ('position', 'any', 'find', 'all')
 
@@ -247,8 +256,17 @@ class Escaper:
         start = self.walk[0]
         for ent in ents:
             copies = [e[2][1] for e in ent.st.ev if e[0] == 'call' and 'Vec' in e[1] and e[1].rsplit('::', 1)[-1] in VEC_WRITES]
-            inits = [ent.st.env.get(b, ('unk', 'acc')) for b, t in self.accs if t == T_EAGER]
-            held = [v for v in inits if v != ('vec', ())] + copies
+            # what the output holds: the content the interpreter tracks for the local (its initial value, then what was pushed /
+            # appended: ('concat', v, list) is v followed by the list, see absx) and every write recorded as an event that this
+            # content does not already account for (a write through another name)
+            inits = [x for b, t in self.accs if t == T_EAGER for x in vec_content(ent.st.env.get(b, ('unk', 'acc')))]
+            held = list(inits)
+            rest = list(inits)
+            for c in copies:
+                if c in rest:
+                    rest.remove(c)
+                else:
+                    held.append(c)
             if start == ZERO:
                 if held and not (len(held) == 1 and prefix_end(held[0]) == ZERO):
                     wrong.append('the output is not empty when the loop starts at the first byte: %s' % [absx.fmt(x)[:60] for x in held])
@@ -475,7 +493,8 @@ def run(ctx):
                 'escaped' if ONLY in esc else 'not escaped', 'escaped' if FIRST in esc else 'not escaped', 'escaped' if LAST in esc else 'not escaped')))
     ctx.add('E3.per-byte-transducer', 'dn_escape', loc(D.B.root), not wrong, 'unexpected loop-body behaviour: %s' % wrong[:6])
     ctx.add('E2.always-escaped', 'dn_escape', loc(D.B.root), RFC4514_SPECIAL <= always and always <= (ASCII_PUNCT | {0}),
-            'always-escaped set %s must contain RFC 4514\'s %s and stay within ASCII punctuation' % (sorted(always), sorted(RFC4514_SPECIAL)))
+            'always-escaped set %s must contain RFC 4514\'s %s and stay within ASCII punctuation: in RFC 4514\'s must-escape set but not escaped: %s; escaped although neither NUL nor ASCII punctuation: %s' % (
+                sorted(always), sorted(RFC4514_SPECIAL), ['0x%02x' % c for c in sorted(RFC4514_SPECIAL - always)], ['0x%02x' % c for c in sorted(always - ASCII_PUNCT - {0})]))
     ctx.add('E2.leading', 'dn_escape', loc(D.B.root), leading == {0x20, 0x23}, 'escaped only in first position: %s, RFC 4514: space and #' % sorted(leading))
     ctx.add('E2.trailing', 'dn_escape', loc(D.B.root), trailing == {0x20}, 'escaped only in last position: %s, RFC 4514: space' % sorted(trailing))
     check_identity_paths(ctx, D, 'dn_escape', always | leading | trailing, {(c, pos) for c, ds in table.items() for d, pos in ds if d == 'escape'},
